@@ -593,13 +593,14 @@ def _call(f, st, t, bb):
         if rr is not None and not args[0]["pl"]["p"]:
             st.boolinfo[dl] = ("readerr", rr, name.endswith("is_err"))
         return
-    if name == "<core::option::Option<T> as core::cmp::PartialEq>::eq" and len(args) == 2 and dl is not None:
+    if name in ("<core::option::Option<T> as core::cmp::PartialEq>::eq", "<core::option::Option<T> as core::cmp::PartialEq>::ne") and \
+            len(args) == 2 and dl is not None:
         # `line.last() == Some(&b'\n')`: the same newline test as ends_with
         sides = [a for a in args if a["k"] in ("copy", "move")]
         lasts = [a for a in sides if not a["pl"]["p"] and a["pl"]["l"] in st.lastres]
         others = [a for a in sides if a not in lasts]
         if len(lasts) == 1 and len(others) == 1 and _is_some_newline(f, others[0]):
-            st.boolinfo[dl] = ("nl", st.lastres[lasts[0]["pl"]["l"]], True)
+            st.boolinfo[dl] = ("nl", st.lastres[lasts[0]["pl"]["l"]], name.endswith("::eq"))
         return
     if name == "core::slice::<impl [T]>::split_last":
         # Option<(&u8, &[u8])>: the last byte and the buffer without it
